@@ -81,6 +81,45 @@ class ClassInfo:
         return f"<Class {self.qual}>"
 
 
+def _canon_tree(tree: ast.AST) -> None:
+    """Spelling-only canonicalisation applied to every module when it is loaded, so that no rule
+    ever sees the difference:
+
+      ``x = E`` directly followed by ``return x`` (x used nowhere else in the function)  ->  ``return E``
+
+    (the inverse of the "name the result before returning it" edit).  In place."""
+    for fn in ast.walk(tree):
+        if not isinstance(fn, (ast.FunctionDef, ast.AsyncFunctionDef)):
+            continue
+        uses: dict[str, int] = {}
+        for n in ast.walk(fn):
+            if isinstance(n, ast.Name):
+                uses[n.id] = uses.get(n.id, 0) + 1
+
+        def fix(block: list) -> None:
+            i = 0
+            while i < len(block) - 1:
+                a, b = block[i], block[i + 1]
+                tgt = val = None
+                if isinstance(a, ast.Assign) and len(a.targets) == 1 and isinstance(a.targets[0], ast.Name):
+                    tgt, val = a.targets[0].id, a.value
+                elif isinstance(a, ast.AnnAssign) and isinstance(a.target, ast.Name) and a.value is not None:
+                    tgt, val = a.target.id, a.value
+                if tgt is not None and isinstance(b, ast.Return) and isinstance(b.value, ast.Name) and b.value.id == tgt and uses.get(tgt) == 2:
+                    block[i : i + 2] = [ast.copy_location(ast.Return(value=val), a)]
+                    continue
+                i += 1
+
+        for n in ast.walk(fn):
+            for fld in ("body", "orelse", "finalbody"):
+                blk = getattr(n, fld, None)
+                if isinstance(blk, list) and blk and isinstance(blk[0], ast.stmt):
+                    fix(blk)
+            if isinstance(n, ast.Try):
+                for h in n.handlers:
+                    fix(h.body)
+
+
 class Module:
     def __init__(self, name: str, relpath: str, source: str, is_pkg: bool):
         self.name = name
@@ -91,6 +130,7 @@ class Module:
             self.tree = ast.parse(source, filename=relpath)
         except SyntaxError as err:  # a variant that does not compile is not a variant
             raise AnalysisError(f"cannot parse {relpath}: {err}") from err
+        _canon_tree(self.tree)
         self.imports: dict[str, str] = {}  # local name -> qualified name
         self.classes: dict[str, ClassInfo] = {}
         self.functions: dict[str, FuncInfo] = {}
